@@ -48,8 +48,28 @@ def _structs(tier):
     return out
 
 
+def _pair_singletons(tier):
+    """structures with a whole mode pair (M_k, N_k) = (1, 1) at every position, orders 2..5 (6 thorough)"""
+    out = []
+    for d in range(2, (5 if tier == 'quick' else 6) + 1):
+        for pos in range(d):
+            M, N = list(PM[:d]), list(PN[:d])
+            M[pos] = N[pos] = 1
+            out.append((M, N))
+    return out
+
+
 def cases(tier, seed):
     S = 3 if tier == 'quick' else 8
+    for M, N in _pair_singletons(tier):
+        for fn in ('fast_matvec', 'dmrg_hadamard', 'amen_mv', 'amen_mm'):
+            for ra, rx in ((2, 3), (3, 3)):
+                for eps in (1e-8, 1e-3):
+                    for sd in range(2 if tier == 'quick' else 4):
+                        for init in ('none', 'zero', 'rank1'):
+                            if init != 'none' and sd > 0:
+                                continue
+                            yield {'fn': fn, 'M': M, 'N': N, 'ra': ra, 'rx': rx, 'fam': 'gauss', 'dt': 'f64', 'eps': eps, 'seed': sd, 'init': init}
     for M, N in _structs(tier):
         d = len(N)
         for fn in ('fast_matvec', 'dmrg_hadamard', 'amen_mv', 'amen_mm'):
@@ -142,7 +162,7 @@ def run_case(c):
     else:
         K = list(PK[:d])
         for i in range(d):
-            if N[i] == 1 and M[i] != 1:
+            if N[i] == 1:
                 K[i] = 1
         sA = space.operator_struct(M, K, RA, dt, 'gauss')
         sB = space.operator_struct(K, N, Rx, dt, 'gauss')
